@@ -104,6 +104,9 @@ using namespace uncrustify;
 // Global data
 cp_data_t cpd;
 
+//! language flags given with -l; restored at the start of every file
+static size_t forced_lang_flags = 0;
+
 
 /**
  * Find the language for the file extension
@@ -625,7 +628,8 @@ int main(int argc, char *argv[])
       }
       else
       {
-         cpd.lang_forced = true;
+         cpd.lang_forced   = true;
+         forced_lang_flags = cpd.lang_flags;
       }
    }
    // Get the source file name
@@ -1532,6 +1536,11 @@ static void do_source_file(const char *filename_in,
       || cpd.lang_flags == 0)
    {
       cpd.lang_flags = language_flags_from_filename(filename_in);
+   }
+   else
+   {
+      // undo what the Objective-C probe of the tokenizer added while parsing an earlier file
+      cpd.lang_flags = forced_lang_flags;
    }
 
    // Try to read in the source file
